@@ -48,6 +48,20 @@ CHECKS = {
         note="Schedules are explored on fake multiprocessing primitives; k-means patch creation (patch_num) is only checked for the union of all patches because the centres are not fixed by the property.",
         ref="DESIGN.md 3.3, 4 C02",
     ),
+    "C07": dict(
+        engine="CacheFS",
+        technique="TLC model checking of spec/CacheFS.tla (tree-cache machine: reuse decision on the decoded binning file, rebuild protocol) over all crash-free histories of builds and measurements; histories (exhaustive short ones, TLC-simulated longer ones, interrupted builds, the deviation's counterexample) replayed on a real catalog cache with the cache state compared with the model after every operation",
+        text="The tree cache of a patch is a small state machine: a measurement reuses cached trees iff the binning file decodes to exactly the requested binning (edges and closed side; an empty or one-byte file decodes to 'unbinned'), otherwise it rebuilds. TLC proves HistoryIndependent/NeverWrongTrees for every history of up to 4(5) operations over 5 binnings (none, A, A with the other closed side, other edges, other bin count) with forced and unforced builds, and produces a counterexample when the closed side is ignored. The histories are replayed on a real cache through Catalog.build_trees and autocorrelate/crosscorrelate (binned reference role and unbinned unknown role, catalog reopened at random): every measurement must equal, bit for bit, the one from a freshly created cache, and the decoded binning file / content of trees.pkl / rebuild-vs-reuse decision must match the model.",
+        note="Input redshifts include values exactly on bin edges so that the closed side is observable; one cosmology and one scale set.",
+        ref="DESIGN.md 3.4, 4 C07",
+    ),
+    "C08": dict(
+        engine="CacheFS",
+        technique="TLC model checking of spec/CacheFS.tla (one action per file-system syscall, Crash between any two, three machines: tree cache, catalog creation/overwrite, result-file triple); strace recordings of every real workload validated against CacheFSTrace by TLC (order of file operations); every syscall-prefix of every recording materialised and recovered with the real library",
+        text="CacheFS.tla states the protocols crash safety rests on (binning marker removed before and written after the trees; patch index appears atomically and last; overwrite removes the whole old catalog first) and TLC checks NeverWrongTrees, CatalogAllOrNothing, ResultsOneGeneration for every crash point and recovery; deviation flags reproduce the code as found. Each workload (create, overwrite an existing catalog, first metadata computation, tree build and rebuild with other edges / closed side / forced / unbinned, CorrFunc.to_file, CorrData.to_files, each over several prior disk states) runs once for real under strace; the recorded syscalls on the cache tree must be a behaviour of the spec (TLC, with a swapped-syscall trace rejected as binding demonstration). Then for EVERY prefix of the recorded syscalls the surviving tree is rebuilt (tree model with inode semantics, equal byte for byte to the real end state; cross-checked against real SIGKILLs in the thorough tier) and reopened / measured / read back with the real library: the outcome must be an error or equal the completed or the never-started state.",
+        note="Process death is modelled as 'the completed syscalls survive, user-space buffers are lost'; power failure and page-cache effects are out of scope. Workloads are single-process (max_workers=1).",
+        ref="DESIGN.md 3.4, 4 C08",
+    ),
 }
 
 NOT_YET = "machinery for this property is not built yet in this round (planned, see DESIGN.md section 10)"
